@@ -18,6 +18,7 @@ and every dataset after a query / a refused call) must hold exactly the measurem
 still carrying exactly the labels it carried (`check_frame`, `check_untouched`).  Datasets that
 were built from one measurement array keep sharing one array when they are retagged.
 """
+import copy
 from fractions import Fraction
 import numpy as np
 from engines import C11_real as R
@@ -294,19 +295,152 @@ def expected_after(op, args, ws_v, i):
     raise KeyError(name)
 
 
-def check_step(ws, op):
-    """ws: real datasets (freshly tagged here).  Returns (new_ws, problem or None)."""
+def make_twin(ws, group, nfs):
+    """round 7: a deep copy of the (freshly tagged) workspace in which the cells listed in `nfs` hold
+    their non-finite value (NaN / +inf / -inf) instead of a tag; arrays keep dtype, strides and the
+    sharing between datasets built from one array"""
+    tw = copy.deepcopy(ws)
+    for k, d in enumerate(tw):
+        if group[k] != k:
+            d.measurements = tw[group[k]].measurements
+            continue
+        src = ws[k].measurements
+        m3 = np.array(src, dtype=float).reshape(R.dims(ws[k]))
+        for (i, j, t), kind in nfs[k].items():
+            m3[i, j, t] = R.NONFINITE[kind]
+        d.measurements = R.like(src, m3 if src.ndim == 3 else m3[:, :, 0])
+    return tw
+
+
+def nf_cells(d):
+    no, nc, nt = R.dims(d)
+    m = np.array(d.measurements, dtype=float).reshape(no, nc, nt)
+    return {(int(i), int(j), int(t)): R.nf_kind(m[i, j, t]) for i, j, t in zip(*np.nonzero(~np.isfinite(m)))}
+
+
+def nf_pass(name, op, args, ws_v, nfs, where, twin, kind, val, keep):
+    """round 7: the same call on the twin workspace whose cells `nfs` are NaN / +-inf.  A non-finite
+    value is a value like any other: it stays with its own observation / channel / time (every
+    retained cell of the twin's result is non-finite exactly when the cell it was traced to is, and
+    of the same kind; all labels are those of the finite run), and a mean (`bin_time`,
+    `average_by`) is non-finite exactly when one of ITS OWN cells is (IEEE: NaN if a NaN or both
+    infinities are among them, else that infinity) and otherwise the finite run's mean.
+    Returns the non-finite cells of every dataset of the new workspace."""
+    import warnings
+    a2, adm2, call2 = R.resolve(twin, op)
+    if not adm2 or a2 != args:
+        raise Bad(f'{name}: admissibility / resolved arguments depend on the measurement values', a2, args)
+    with warnings.catch_warnings():
+        warnings.simplefilter('ignore')
+        try:
+            kind2, val2 = call2()
+        except Exception as exc:  # noqa: BLE001
+            raise Bad(f'{name} raised {type(exc).__name__} when measurements are non-finite (NaN / inf) '
+                      f'although the same call on finite values gives a result', str(exc)[:160], 'a result')
+    if kind2 != kind:
+        raise Bad(f'{name}: {kind2} with non-finite measurements, {kind} with finite ones', kind2, kind)
+    i0 = args['at'] if args else 0
+    if kind in ('rejected', 'query'):
+        for k, d in enumerate(twin):
+            if nf_cells(d) != nfs[k]:
+                raise Bad(f'{name} ({kind}): the non-finite cells of object {k} moved', nf_cells(d), nfs[k])
+        if kind == 'rejected':
+            return nfs
+        src = ws_v[i0]
+        col = [r[args['by']] for r in src['obs']]
+        g = groups_first(col)
+        if val2['uniq'] != val['uniq'] or val2.get('n') != val.get('n'):
+            raise Bad(f'{name}: group labels / sizes depend on the measurement values', val2['uniq'], val['uniq'])
+        for a, u in enumerate(g):
+            rows = [i for i, x in enumerate(col) if x == u]
+            for j in range(src['nc']):
+                if name == 'average_by':
+                    own = [nfs[i0].get((i, j, 0)) for i in rows]
+                    exp, got = R.nf_combine(own), R.nf_kind(val2['avg'][a][j])
+                    if exp != got:
+                        raise Bad(f'average_by: mean of group {u!r}, channel {j} is {val2["avg"][a][j]!r} but '
+                                  f'the cells of its own rows {rows} are {[k or "finite" for k in own]} (a '
+                                  f'group mean is non-finite iff one of its own cells is)',
+                                  val2['avg'][a][j], exp or float(val['avg'][a][j]))
+                    if exp is None and not _close(val2['avg'][a][j], val['avg'][a][j], 1e-6):
+                        raise Bad(f'average_by: mean of group {u!r}, channel {j} changed because another '
+                                  f'cell is non-finite', val2['avg'][a][j], val['avg'][a][j])
+                else:
+                    for n, i in enumerate(rows):
+                        exp, got = nfs[i0].get((i, j, 0)), R.nf_kind(val2['tensor'][a][j][n])
+                        if exp != got or (exp is None and val2['tensor'][a][j][n] != val['tensor'][a][j][n]):
+                            raise Bad(f'tensor: entry of group {u!r}, channel {j}, row {i}',
+                                      val2['tensor'][a][j][n], exp or val['tensor'][a][j][n])
+        return nfs
+    if len(val2) != len(val):
+        raise Bad(f'{name}: number of result datasets depends on the measurement values', len(val2), len(val))
+    off = 1 if keep else 0
+    bin_idx = None
+    if name == 'bin_time':
+        tcol = [r[args['by']] for r in ws_v[i0]['time']]
+        bin_idx = [[t for t, x in enumerate(tcol) if x in bn] for bn in args['bins']]
+    new_nfs = []
+    for r, (d, d2) in enumerate(zip(val, val2)):
+        c, c2 = R.canon(d), R.canon(d2)
+        for ax in ('temporal', 'desc', 'obs', 'chan', 'time'):
+            if c[ax] != c2[ax]:
+                raise Bad(f'{name}: {ax} descriptors of result {r} depend on the measurement values '
+                          f'(non-finite cells)', c2[ax], c[ax])
+        v, v2 = view(d), view(d2)
+        if v['m'].shape != v2['m'].shape:
+            raise Bad(f'{name}: shape of result {r} depends on the measurement values', v2['m'].shape, v['m'].shape)
+        nf = {}
+        for p in range(v['no']):
+            for q in range(v['nc']):
+                for s_ in range(v['nt']):
+                    x, y = float(v['m'][p, q, s_]), float(v2['m'][p, q, s_])
+                    if bin_idx is not None and r == i0 + off:
+                        own = [nfs[i0].get((p, q, t)) for t in bin_idx[s_]]
+                        exp, what = R.nf_combine(own), f'mean of bin {s_} at ({p},{q})'
+                    elif x.is_integer() and int(x) in where:
+                        di, i, j, t = where[int(x)]
+                        own = [nfs[di].get((i, j, t))]
+                        exp, what = own[0], f'measurement taken from object {di} cell ({i},{j},{t})'
+                    else:
+                        if R.nf_kind(y):
+                            nf[(p, q, s_)] = R.nf_kind(y)
+                        continue
+                    got = R.nf_kind(y)
+                    if exp != got:
+                        raise Bad(f'{name}: result {r} cell ({p},{q},{s_}) = {y!r}, but it is the {what} whose own '
+                                  f'cell(s) are {[k or "finite" for k in own]} (a non-finite value stays with '
+                                  f'its own observation / channel / time)', y, exp or x)
+                    if exp is None and not _close(x, y, 1e-6):
+                        raise Bad(f'{name}: result {r} cell ({p},{q},{s_}) changed because another cell is '
+                                  f'non-finite', y, x)
+                    if got:
+                        nf[(p, q, s_)] = got
+        new_nfs.append(nf)
+    return new_nfs
+
+
+def check_step(ws, op, nfs=None):
+    """ws: real datasets (freshly tagged here); nfs: per dataset the cells {(i, j, t): kind} that hold
+    a non-finite value in the session (round 7).  Returns (new_ws, problem or None, new_nfs)."""
+    new_ws, problem, box = _check_step(ws, op, nfs if nfs is not None else [{} for _ in ws])
+    return new_ws, problem, box
+
+
+def _check_step(ws, op, nfs):
     name = op['name']
     # datasets built from one measurement array keep sharing it (merge consumes them all: separate)
     where0, group = retag(ws, share=(name != 'merge'))
     ws_v = [view(d) for d in ws]
     args, adm, call = R.resolve(ws, op)
     if not adm:
-        return ws, None
+        return ws, None, nfs
     i0 = args['at'] if args else 0
     # the addressed object's measurements are traced under its own index
     where = where0 if group[i0] == i0 else \
         {tag: ((i0,) + pos[1:] if pos[0] == group[i0] else pos) for tag, pos in where0.items()}
+    # round 7: twin workspace holding the session's non-finite cells (built BEFORE the call:
+    # sort_by works in place)
+    twin = make_twin(ws, group, nfs) if any(nfs) else None
     import warnings
     with warnings.catch_warnings():
         warnings.simplefilter('ignore')
@@ -314,19 +448,24 @@ def check_step(ws, op):
             kind, val = call()
         except Exception as exc:  # noqa: BLE001
             return ws, {'what': f'{name} raised {type(exc).__name__} on an admissible input',
-                        'observed': str(exc)[:160], 'expected': 'a result', 'exception': R.exc_name(exc)}
+                        'observed': str(exc)[:160], 'expected': 'a result', 'exception': R.exc_name(exc)}, nfs
     keep = bool(op.get('keep')) and name in R.KEEPABLE
+
+    def nf(new):
+        if twin is None:
+            return [{} for _ in new]
+        return nf_pass(name, op, args, ws_v, nfs, where, twin, kind, val, keep)
     if kind == 'rejected':
         try:
             check_frame(name, ws, ws_v, None, i0, keep, kind, where0, group)
+            return ws, None, nf(ws)
         except Bad as b:
-            return ws, {'what': b.what, 'observed': b.observed, 'expected': b.expected}
-        return ws, None
+            return ws, {'what': b.what, 'observed': b.observed, 'expected': b.expected}, nfs
     try:
         if kind == 'query':
             _check_query(name, args, ws_v[args['at']], val)
             check_frame(name, ws, ws_v, None, i0, keep, kind, where0, group)
-            return ws, None
+            return ws, None, nf(ws)
         out_v = [view(d) for d in val]
         i = args['at'] if args else 0
         off = 1 if keep else 0          # the results follow the kept source
@@ -351,9 +490,11 @@ def check_step(ws, op):
                 check_gather(v, ws_v, where, w, name)
         # all the other datasets of the workspace (and a kept source) are untouched: re-read each
         check_frame(name, ws, ws_v, list(val), i, keep, kind, where0, group)
+        new_nfs = nf(list(val))
     except Bad as b:
-        return list(val), {'what': b.what, 'observed': b.observed, 'expected': b.expected}
-    return list(val), None
+        return (list(val) if not isinstance(val, dict) else ws), \
+            {'what': b.what, 'observed': b.observed, 'expected': b.expected}, nfs
+    return list(val), None, new_nfs
 
 
 def _check_merge(out_v, ws_v, where):
@@ -539,8 +680,13 @@ def run(case):
             return {'what': "time_descriptors=None must give 'time' = (0, 1, ..., n_time-1)", 'observed': got,
                     'expected': {'time': list(range(nt))}, 'step': -1, 'op': 'init'}
     ws = [d0]
+    # round 7: the non-finite cells of the session (kept beside the tags, see nf_pass)
+    nfs = [{(i, j, t): kind for (i, j, t, kind) in case['init'].get('nonfinite') or []}]
+    if nfs[0] and nf_cells(d0) != nfs[0]:
+        return {'what': 'constructor moved / lost a non-finite measurement', 'observed': str(nf_cells(d0)),
+                'expected': str(nfs[0]), 'step': -1, 'op': 'init'}
     for n, op in enumerate(case['ops']):
-        ws, problem = check_step(ws, op)
+        ws, problem, nfs = check_step(ws, op, nfs)
         if problem:
             problem['step'] = n
             problem['op'] = op['name']
